@@ -24,7 +24,8 @@ def run(ctx):
     ok = lean_check(ctx, "VerylModel.Props.C24", THEOREMS)
     ctx.cov["trusted_base"] = [
         "Lean 4.33 kernel; axioms ⊆ {propext, Classical.choice, Quot.sound}",
-        "M-Register abstracts DefineContext::exclusive as a parameter and name_table as one insertion-ordered list",
+        "M-Register abstracts DefineContext::exclusive as a parameter (its pos/neg formula `exclusiveSets` is compared with the real "
+        "method on generated set pairs, `excl` lines) and name_table as one insertion-ordered list",
         "pass 2 / emitter read the symbol table through (namespace, name) lookups: validated by the permutation runs, not proved",
         "harness/src/dom_order.rs + vsets.rs and tools/vlib.py"]
     ctx.cov["rule"] = ("all permutations (≤ 4 files) / reverse + random permutations of pass-1+pass-2 order over generated "
